@@ -45,6 +45,33 @@ func GetRelationLineNumber(relation string, lines []string) int {
 	})
 }
 
+// indexOfWord returns the index of the first occurrence of symbol in line that is a whole identifier, i.e. neither
+// preceded nor followed by an identifier character ("e" in "define e: ..." is the relation name, not a letter of
+// "define"). It returns -1 if there is none.
+func indexOfWord(line, symbol string) int {
+	if symbol == "" {
+		return -1
+	}
+
+	for offset := 0; offset <= len(line)-len(symbol); {
+		idx := strings.Index(line[offset:], symbol)
+		if idx == -1 {
+			return -1
+		}
+
+		start := offset + idx
+		end := start + len(symbol)
+
+		if (start == 0 || !isIdentifierChar(line[start-1])) && (end == len(line) || !isIdentifierChar(line[end])) {
+			return start
+		}
+
+		offset = start + 1
+	}
+
+	return -1
+}
+
 type StartEnd struct {
 	Start int
 	End   int
@@ -64,10 +91,23 @@ func ConstructLineAndColumnData(lines []string, lineIndex int, symbol string) (S
 
 	rawLine := lines[lineIndex]
 
-	wordIdx := strings.Index(rawLine, symbol)
+	// the name is looked for after the declaring keyword, so that a type called "type" is not found in the keyword
+	offset := len(rawLine) - len(strings.TrimLeft(rawLine, " \t"))
+
+	for _, keyword := range []string{"extend type ", "type ", "define ", "condition "} {
+		if strings.HasPrefix(rawLine[offset:], keyword) {
+			offset += len(keyword)
+
+			break
+		}
+	}
+
+	wordIdx := indexOfWord(rawLine[offset:], symbol)
 
 	if wordIdx == -1 {
 		wordIdx = 0
+	} else {
+		wordIdx += offset
 	}
 
 	return StartEnd{
